@@ -203,6 +203,11 @@ def run_case(c, rng, sb, order, res, patterns=None, allow_extra_input=True, pref
         os.rename(inp, real)
         os.symlink(real, inp)
         res.count("runs_with_symlinked_input_directory")
+    # entries that are symbolic links to nothing (named like CMake files): set by the caller as c.dangling = [rel path, ...]
+    for rel in getattr(c, "dangling", []):
+        lp = os.path.join(inp, rel)
+        if not os.path.lexists(lp):
+            os.symlink(os.path.join(sb, "no-such-place", "gone.cmake"), lp)
     c.fr = fsrun.run_monitored(sb, argv, cwd, home, order=order)
     c.got = fsrun.files_under(out_abs) if os.path.isdir(out_abs) else set()
     return c
